@@ -158,7 +158,7 @@ def run(ctx):
                 "rule": "DM: 1-4 row segments (several per y), 1-7 cells with all polarities, 1-10 random ops (swap, insert, unplace, place at arbitrary x) + "
                         "EXHAUSTIVE: every sequence of 1 and 2 (thorough: 3) swap/insert operations over all cell/row/predecessor arguments from small initial "
                         "placements; FC: circuits of the DP generator as generated / after Circuit::legalize / with one cell perturbed + degenerate circuits "
-                        "(no rows, no cells, only fixed cells, rows of different heights); DO/DP as in C05. non-trivial = at least one operation was performed / the placement changed; distinct = distinct case lines",
+                        "(no rows, no cells, only fixed cells, rows of different heights); DO/DP as in C05, including its stress streams (circuits translated to 2^24 + odd .. +-(2^30 - small) without shift pass; rows of 8..12 cells with reordering windows of 6..8 cells: checks/stress_streams.py, counts under stress_streams). non-trivial = at least one operation was performed / the placement changed; distinct = distinct case lines",
                 "exhaustive": True, "exhaustive_sequences": len(exh), "ops_performed": ops_ok, "ops_refused": ops_no,
                 "direct_drive": do.summary(dres), "placeDetailed_runs": dc.summary(cres), "closed_reordering_pass_tie": cr.summary(rres),
                 "exposed_states_checked_legal": cres["states"] + dres["ops"],
